@@ -7,11 +7,23 @@ import glob
 for fn in sorted(glob.glob(os.path.join(V, "props.d", "*.json"))):
     props[os.path.basename(fn)[:-5]] = json.load(open(fn))
 allp = [json.loads(l) for l in open(os.path.join(V, "properties.jsonl"))]
+claimed = set(open(os.path.join(V, "claimed.txt")).read().split())
+def hook_commits():
+    import subprocess
+    try:
+        out = subprocess.run(["git", "-C", "/repo", "log", "--format=%h %s"], capture_output=True, text=True).stdout
+        hs = [l.split()[0] for l in out.splitlines() if l.split(" ", 1)[1].startswith("verif:")]
+        if hs:
+            json.dump({"source_commits": hs[::-1]}, open(os.path.join(V, "hooks.json"), "w"))
+            return hs[::-1]
+    except Exception:
+        pass
+    return json.load(open(os.path.join(V, "hooks.json")))["source_commits"]
 checks, na = [], []
 for p in allp:
     pid = p["id"]
     P = props.get(pid)
-    if not P or not P.get("claimed", True):
+    if not P or pid not in claimed:
         na.append({"property_id": pid, "reason": (P or {}).get("na_reason", "not yet built: no model, theorems and correspondence committed for this property so far (the technique applies; see DESIGN.md section 5)")})
         continue
     checks.append({
@@ -32,7 +44,7 @@ m = {
         "guard": "verif",
         "enable": "go build -tags verif (the harness module /verif/harness replaces shanhu.io/g with /repo)",
         "baseline_off_cmd": "cd /repo && go test -mod=mod -vet=off -count=1 ./...",
-        "source_commits": json.load(open(os.path.join(V, "hooks.json")))["source_commits"],
+        "source_commits": hook_commits(),
         "add_only": True,
     },
     "engines": [{"name": "lean4-proof+correspondence", "path": "/verif/check",
